@@ -65,6 +65,11 @@ CLAIMED = {
    note="Trusted: value projection, format!(\"{}\") as what display writes. Strings, non-finite reals and symbols needing bars are excluded by the property.",
    technique="TLA+ printer/reader specification with round-trip law checked by TLC, replay, TLC trace validation of the real printer and reader",
    ref="DESIGN.md section 5, C16"),
+ "C07": dict(
+   text="The specification's share: MCTotal.tla shows the reader pipeline of the specification (Lexer, Reader) total on every string up to length 4 (5 thorough) over a 20-character alphabet, so 'a value or a reported error' is well-defined for every text; CrashTrace.tla judges every recorded evaluation: the input ends in a value or a reported error, the sanity form evaluated next on the same interpreter yields 3, and the same holds for the input alone on a fresh interpreter. Inputs: all 168421 short strings, token soups over keywords/builtins/boundary literals with balanced and unbalanced parentheses, token-level mutations of generated programs, of examples/*.scm and of the bundled .sld sources, random Unicode/control characters, and invalid-UTF-8 / truncated program and library files through eval_file and the built binary.",
+   note="'Did not panic / abort' is an observation of the harness (catch_unwind, exit status, signals), not something a specification decides; the specification supplies the input universes' totality and the verdict. Native stack exhaustion, non-termination (4 s watchdog) and memory exhaustion are outside the claim: skipped, never violations.",
+   technique="TLA+ totality check of the reader specification by TLC; TLC trace validation of recorded robustness runs",
+   ref="DESIGN.md section 5, C07"),
 }
 PENDING_REASON = "no check is registered for this property yet: the specification module and binding for it are still being built (see DESIGN.md section 10); nothing is claimed"
 
